@@ -6,7 +6,7 @@ import ast
 from sa.index import Builtin, FuncInfo, DICT_MUTATORS, AnalysisError
 from sa.paths import Walker, Model, call_name
 from sa.access import accesses, view_of, root_of
-from rules.locks import is_private, NOT_OPERATIONS
+from rules.locks import is_private, is_module_helper, NOT_OPERATIONS
 
 LOOKUP = '_link_lookup'
 ANCHOR = '_anchor'
@@ -28,7 +28,7 @@ class CacheModel(Model):
 
     def inline(self, walker, op, callee, st):
         if callee.cls is None:
-            return False
+            return is_module_helper(op, callee)
         rv = op.recv_val
         rname = rv.id if isinstance(rv, ast.Name) else None
         if rname == 'self':
